@@ -167,4 +167,40 @@ PROPS = {
         "assumptions": COMMON_ASSUME + ["power-loss model as C06"],
         "outside": "as C06",
     },
+    "C11": {
+        "quick": [
+            {"harness": "H_C11_seq_q", "cases": list(range(8)), "scale": SC},
+        ],
+        "thorough": [
+            {"harness": "H_C11_seq_t", "cases": list(range(8)), "scale": SC},
+        ],
+        "covers": {"quick": ["C01.seq.done", "C01.level>0", "C01.overflow-bucket-created"]},
+        "bounds": {"quick": "quiescent part only: 3 keys, prefix 3 puts + 2 symbolic steps {put, delete, compact, sync}; a full Items scan after every step must return every live key exactly once with its value, then ErrIterationDone twice; symbolic hashes (overflow chains, holes after deletes, mid-level split pointers reached by the solver); slotsPerBucket scaled to 2",
+                   "thorough": "prefix 4 puts + 3 steps"},
+        "assumptions": COMMON_ASSUME,
+        "outside": "scans concurrent with writers/compaction (not yet built), slotsPerBucket=31",
+    },
+    "C14": {
+        "quick": [
+            {"harness": "H_C14_q", "cases": list(range(5)), "scale": SC, "replay": False},
+        ],
+        "thorough": [
+            {"harness": "H_C14_t", "cases": list(range(5)), "scale": SC, "replay": False},
+        ],
+        "covers": {"quick": ["C14.done"]},
+        "bounds": {"quick": "fs.Mem; 2 keys, 2 symbolic steps {put, delete, compact}; Get, GetAppend (insufficient and sufficient capacity), full Items scan; heap-provenance obligations on every path + overwrite/compact/close/reopen double check",
+                   "thorough": "3 steps, 3-byte values"},
+        "assumptions": COMMON_ASSUME + ["provenance obligations are facts about the engine's heap graph on each explored path (object identity of backing arrays); they are not replayed natively because aliasing of fs.Mem buffers is not observable by a native run"],
+        "outside": "fs.OS / fs.OSMMap (mmap views; needs the kernel model), unmapping faults",
+    },
+    "C16": {
+        "quick": [
+            {"harness": "H_C16_rt", "cases": list(range(30)), "chunk": 3},
+            {"harness": "H_C16_over", "cases": [0, 1, 2], "chunk": 1},
+        ],
+        "covers": {"quick": ["C16.rt.done", "C16.over.done"]},
+        "bounds": {"quick": "key lengths {0,1,2,65534,65535} x value lengths {0,1,2,511,512,513}: Put/Get/Has/Count/Items, clean restart, crash recovery (first 3 and last byte of key and value symbolic, rest a concrete pattern); over-long keys 65536..65538 sharing prefix and low 16 length bits with a stored short key; value of 512 MiB + 1 (virtual, arithmetic only); real constants (no scaling)"},
+        "assumptions": COMMON_ASSUME,
+        "outside": "key lengths strictly between the representatives, values near 512 MiB actually materialised, records exceeding a segment's capacity (rollover arithmetic with symbolic lengths not built)",
+    },
 }
